@@ -305,7 +305,9 @@ pub fn run(ctx: &Ctx) -> Rep {
             let mut s = String::new();
             for j in 0..k {
                 if j > 0 {
-                    s.push(if rng.chance(1, 6) { '\t' } else { ' ' });
+                    // any Unicode white-space character separates tokens
+                    const WS: [char; 25] = [' ', '\t', '\n', '\u{0B}', '\u{0C}', '\r', '\u{85}', '\u{A0}', '\u{1680}', '\u{2000}', '\u{2001}', '\u{2002}', '\u{2003}', '\u{2004}', '\u{2005}', '\u{2006}', '\u{2007}', '\u{2008}', '\u{2009}', '\u{200A}', '\u{2028}', '\u{2029}', '\u{202F}', '\u{205F}', '\u{3000}'];
+                    s.push(if rng.chance(1, 2) { ' ' } else { WS[rng.below(25) as usize] });
                 }
                 match rng.below(6) {
                     0 => s.push_str("xx"),
@@ -318,7 +320,7 @@ pub fn run(ctx: &Ctx) -> Rep {
             }
             check_text(&mut st, &s);
         }
-        for s in ["", "AS AS AS", "A♠ K♠ Q♠ J♠ T♠", "2c 2c 3d xx 4h", "  9♣  "] {
+        for s in ["", "AS AS AS", "A♠ K♠ Q♠ J♠ T♠", "2c 2c 3d xx 4h", "  9♣  ", "AS\u{A0}KS", "XX\u{3000}AD\u{2003}2c", "As\u{B}Ks\u{85}Qs\u{2028}Js"] {
             check_text(&mut st, s);
         }
         // texts with more tokens than there are cards: a card may first appear after any number of blanks or repeats
